@@ -28,9 +28,11 @@ LEVEL_TEXT = ("Lean 4 theorems, for all networks (any number of points and clust
               "theorems on the regenerated refine_approx_coordinates / refine_adjustment sites (the exported coordinates are those of "
               "the last linearisation = adjusted coordinates of the pass before; a converged run re-adjusts with zero iterations and "
               "the same results, for every adjustment that is a function of the network); the adjustment itself explored end-to-end.")
-LEVEL_NOTE = ("Numbers are abstract: exact law on the representable numbers, or Codec.Printer (rd (fmt x) = q x, fmt (q x) = fmt x, sign "
-              "symmetric, non-zero never printed as zero) with a fixed-digits decimal printer as witness; whether gama's 17/16/8 digits "
-              "satisfy the side conditions is explored. Trusted: Lean kernel, Props/C13.lean, tools/gen/c13_attrs.py, "
+LEVEL_NOTE = ("Numbers are abstract in Props/C13.lean: exact law on the representable numbers, or Codec.PrinterOn D (rd (fmt x) = q x, "
+              "fmt (q x) = fmt x, sign symmetric, non-zero never printed as zero; the two laws of the sexagesimal text on a domain D of "
+              "angular values) with a fixed-digits decimal printer as witness; Props/C13Codec.lean proves the law over Q for the real pair "
+              "%.{p}g / IsFloat+atof and gon2deg(.,0,4) / deg2gon (C18's models; D: 0 <= g, g*0.9 < 2^31-1) and instantiates round trip "
+              "and fixed point for angles=400 and angles=360. Trusted: Lean kernel, Props/C13.lean, tools/gen/c13_attrs.py, "
               "tools/gen/c13_doc.py, harness, generators.")
 TECHNIQUE = "Lean 4 proof (case analysis over record types, induction over lists) + translators for the parser tables and the writer sites + correspondence + end-to-end oracle"
 TRUSTED = ["tools/gen/c13_attrs.py (regex translator: attribute name -> local variable -> toDouble target -> setter/ctor argument "
@@ -42,9 +44,11 @@ MODELLED = ["number formatting/parsing (to_xmlstr, setprecision, toDouble): Code
             "stdev attributes: the model keeps the attribute (equal for consistent documents)",
             "Acord2 / linearisation / adjustment between parse and export (C06, C01): explored end-to-end only",
             "text layout of the exported file, expat, str2xml escaping (C12)"]
-ASSUMPTIONS = ["Codec.LawfulOn R / Codec.Printer q for the numbers written by export_xml",
-               "Codec.DegLawfulOn Rd / the sexagesimal half of Codec.Printer (rdDeg (fmtDeg x) = qd x, fmtDeg (qd x) = fmtDeg x, "
-               "fromSec/toSec mutually inverse); C13_sexagesimal_read_back ties the first to the gon2deg/deg2gon models of C18",
+ASSUMPTIONS = ["Codec.LawfulOn R / Codec.PrinterOn D q qd for the numbers written by export_xml: proved over Q for the real printers "
+               "(Props/C13Codec.lean: C13_real_codec_printer); doubles: the decimal -> double rounding of the reader, *0.324 / *(1/0.324) "
+               "and the latitude unit conversion are exact over Q only",
+               "angular values of a document in degrees lie in the domain of gon2deg(., 0, 4): 0 <= g, g*0.9 < 2^31-1 (Net.AngIn; "
+               "gama normalises observed angles to [0, 400) gon; outside, no sign is printed / int(gon*0.9) overflows)",
                "C13_readjustment_identical: the adjustment is a function of the network (what C01/C04/C05/C09 prove of its parts) and "
                "the exported run had converged"]
 
@@ -78,6 +82,16 @@ def translate(ctx):
     out = LEAN / "Gama" / "Gen" / "GkfDoc.lean"
     if not out.exists() or out.read_text() != txt:
         out.write_text(txt)
+    # round 6: the degrees branch of the printer theorems is instantiated with C18's model of gon2deg / deg2gon
+    # (Lemmas/ExportDegrees.lean, DecimalCodecC13.lean); which formatter variant the tree contains (carry of seconds that
+    # round to 60, fabs) is a regenerated constant of C18 (Gen/GeoVariants.lean) the proofs unfold: regenerate it here too,
+    # so that a C13 run does not depend on C18 having been run on the same tree
+    sys.path.insert(0, str(ctx.verif / "tools"))
+    from gen import c18_ellipsoids as _g18
+    try:
+        _g18.run(ctx.repo, ctx.lean)
+    except _g18.Unparsable as e:
+        raise TieBroken("c18_ellipsoids", str(e))
 
 
 # ---------------------------------------------------------------- reading gkf files (independent reader)
@@ -796,6 +810,10 @@ def dnum(rng, lo, hi, nd=4):
     return f"{rng.uniform(lo, hi):.{nd}f}"
 
 
+SEXA = re.compile(r'val="\s*(\d+-\d\d-\d\d\.\d{4})"')
+SEC60 = re.compile(r'-6\d\.\d{4}$')
+
+
 def gon2dms(g):
     """a sexagesimal string deg2gon accepts"""
     d = g * 0.9
@@ -896,7 +914,14 @@ def gen_doc(rng):
             for k, a in els:
                 a = list(a)
                 sd = float(dict(a)["stdev"])
-                if k in ("direction", "angle", "z-angle", "azimuth") and rng.random() < 0.3:
+                if k in ("direction", "angle", "z-angle", "azimuth") and rng.random() < 0.08:
+                    # round 6: seconds in [59.99995, 60): a sexagesimal text with four decimals prints them as 60.0000 unless
+                    # they are carried into the minutes (gon2deg.cpp; `toPrinted` carry) — the text must still be a fixed point
+                    dd, mm = rng.randint(0, 359), rng.choice([0, 17, 58, 59, 59])
+                    g60 = (dd + mm / 60.0 + rng.uniform(59.999951, 59.999999) / 3600.0) / 0.9
+                    a = [(n, repr(g60) if n == "val" else v) for n, v in a]
+                    st["sec60"] = st.get("sec60", 0) + 1
+                elif k in ("direction", "angle", "z-angle", "azimuth") and rng.random() < 0.3:
                     a = [(n, gon2dms(float(v)) if n == "val" else v) for n, v in a]
                     st["deg_in"] += 1
                 sig.append(sd)
@@ -1333,6 +1358,20 @@ def doc_stream(ctx, corr, exe):
                       "LocalNetwork::export_xml / GKFparser", ("[Net.WF held for the input] " if wf_in else "") + why)
         elif wf_in:
             corr.count("doc_wf_and_fixed_point")
+        # round 6 (C13_fixed_point_network_real in degrees; Lemmas/ExportDegrees `gon2deg_degQ`): the sexagesimal TEXT of an
+        # angular value is a fixed point — reading `gon2deg(g, 0, 4)` and printing the value read gives the same characters
+        # (a value with four decimals of the second sits in the middle of its rounding interval: robust for doubles)
+        t1, t2 = SEXA.findall(exported), SEXA.findall(e2)
+        if t1:
+            corr.count("doc_sexagesimal_texts", len(t1))
+            corr.count("doc_sexagesimal_texts_carried", sum(1 for t in t1 if t.endswith("-00.0000")))
+            bad60 = [t for t in t1 if SEC60.search(t)]
+            if bad60:
+                corr.fail("the exported sexagesimal text has seconds 60", dict(payload, texts=bad60[:4]), "gon2deg", f"{bad60[:4]}")
+            elif not why and t1 != t2:
+                d = [(a, b) for a, b in zip(t1, t2) if a != b][:4]
+                corr.fail("the sexagesimal text of an exported angle is not a fixed point of export ∘ parse",
+                          dict(payload, texts=d), "gon2deg / deg2gon", f"{d}")
         if not model2[k] or model2[k][0].startswith("throw") or model2[k][0] == "bad-op":
             corr.disagree("doc", [exported[-1500:]], ["accepted"], model2[k][:2], "the model refuses a document written by export_xml")
             continue
